@@ -17,7 +17,7 @@ mut=$(run_demo mutated $wt)
 results=""
 for c in "$@"; do
   cp /verif/evidence/$c.json $tmp/evidence_$c.json 2>/dev/null   # evidence must describe the unchanged tree: restored below
-  out=$(cd /verif && VERIF_REPO=$wt VERIF_SEED=${VERIF_SEED:-3} ./check $c --quick 2>&1 | grep -v '^\[redun\]' | tail -3)
+  out=$(cd /verif && VERIF_REPO=$wt VERIF_SEED=${VERIF_SEED:-3} ./check $c --quick 2>&1 | grep -v '^\[redun\]\|^Task was destroyed\|^task: <Task' | tail -3)
   rc=$(echo "$out" | grep -c '^VIOLATION')
   results="$results {\"check\": \"$c\", \"violation_reported\": $rc, \"tail\": $(python3 -c 'import json,sys; print(json.dumps(sys.argv[1][-600:]))' "$out")},"
   echo "--- $c with seed $name applied:"; echo "$out"
